@@ -2718,6 +2718,9 @@ def prune_unused_graph_inputs_ir(graph: ir.Graph) -> None:
         # function arguments (named ``in_<index>`` by IRContext.add_input_for_invar).
         if name.startswith("in_"):
             suffix = name[3:]
+            # Inputs exported with inputs_as_nchw are named ``in_<index>_nchw``.
+            if suffix.endswith("_nchw"):
+                suffix = suffix[: -len("_nchw")]
             if suffix.isdigit():
                 return True
         return False
